@@ -477,6 +477,19 @@ def lookalike_scenarios(ctx, home):
     scen.append(("map-key-record:same-generic-name-in-two-namespaces", "LibRec: !record\n  fields:\n    x: int\n",
                  "Holder<T>: !map {keys: T, values: string}\nBad: !record\n  fields:\n    b: Holder<Lib.LibRec>\n",
                  {"lib": "Holder<T>: !map {keys: string, values: T}\nGoodUse: Holder<LibRec>\n"}))
+    # the same generic of the same namespace used twice: first with type arguments that are fine, then (later in the file, in a later field, in a file that
+    # sorts later - here: later in the text) with arguments that break the rule; whatever is remembered about the first use must not cover the second
+    plain_lib = "LibRec: !record\n  fields:\n    x: int\n"
+    for rule, gdef, good, bad in (("map-key-record", "Lookup<K>: !map {keys: K, values: float}\n", "Lookup<string>", "Lookup<Point>"),
+                                  ("map-key-vector", "Lookup<K>: !map {keys: K, values: float}\n", "Lookup<int>", "Lookup<int*>"),
+                                  ("map-key-record-in-generic-record", "Lookup<K>: !record\n  fields:\n    m: !map {keys: K, values: float}\n", "Lookup<string>", "Lookup<Point>"),
+                                  ("union-duplicate-case", "Either<A, B>: [A, B]\n", "Either<int, string>", "Either<int, int>"),
+                                  ("union-duplicate-case-nested", "Either<A, B>: !record\n  fields:\n    u: [A, B]\n", "Either<float, Point>", "Either<Point, Point>")):
+        point = "Point: !record\n  fields:\n    x: int\n"
+        scen.append(("%s:valid-alias-first" % rule, plain_lib, gdef + point + "ZBad: %s\n" % bad, {"main-first": "AGood: %s\n" % good}))
+        scen.append(("%s:valid-field-first" % rule, plain_lib, gdef + point + "ZBad: !record\n  fields:\n    b: %s\n" % bad, {"main-first": "AGood: !record\n  fields:\n    g: %s\n    g2: %s\n" % (good, good)}))
+        scen.append(("%s:valid-uses-around" % rule, plain_lib, gdef + point + "MBad: !record\n  fields:\n    n: int\n    b: %s\n" % bad,
+                     {"main-first": "AGood: %s\n" % good, "main-last": "ZGood: !record\n  fields:\n    g: %s\n" % good}))
     proto = "P: !protocol\n  sequence:\n    r: Lib.LibRec\n"
     for name, lib, main, extra in scen:
         verdicts = {}
@@ -484,7 +497,7 @@ def lookalike_scenarios(ctx, home):
             cdir = os.path.join(ctx.workdir, "cases", "lookalike_%s_%s" % (name.replace(":", "_"), variant))
             shutil.rmtree(cdir, ignore_errors=True)
             lib_t = lib + (extra.get("lib", "") if variant == "lookalike" else "")
-            main_t = (extra.get("main-first", "") if variant == "lookalike" else "") + main + proto
+            main_t = (extra.get("main-first", "") if variant == "lookalike" else "") + main + (extra.get("main-last", "") if variant == "lookalike" else "") + proto
             common.write_tree(cdir, {"lib/_package.yml": "namespace: Lib\n", "lib/lib.yml": lib_t,
                                      "main/_package.yml": "namespace: Main\nimports:\n  - ../lib\njson:\n  outputDir: ../out\n", "main/model.yml": main_t})
             res = {cmd: cli.run_cli(cmd, os.path.join(cdir, "main"), home) for cmd in ("validate", "generate")}
